@@ -61,10 +61,14 @@ type gen struct {
 	features   map[string]bool
 	loopDepth  int
 	rangeDepth int
-	noFault    bool      // package-level initialisers must not panic: every program of a gc batch shares one process start-up
-	inFunc     *function // function being generated (nil in main)
-	budget     int       // remaining statements
-	structs    bool
+	noFault    bool // package-level initialisers must not panic: every program of a gc batch shares one process start-up
+	// Within one statement a helper call (which prints) and an operation that can fault are never mixed:
+	// the order of a call relative to an index/division/dereference in the same expression is not
+	// specified by the language (gc hoists calls).
+	curHasCall, curHasFault bool
+	inFunc                  *function // function being generated (nil in main)
+	budget                  int       // remaining statements
+	structs                 bool
 }
 
 func (g *gen) feat(f string) { g.features[f] = true }
